@@ -377,6 +377,10 @@ class World:
                     await self.ws.send_bytes(BIG)
                 elif what == "send_huge":
                     await self.ws.send_bytes(HUGE)
+                elif what == "send_near":
+                    # just below the writer's drain threshold (64 KiB of output since the last drain): the NEXT frame - a Close
+                    # frame, say - is the one that crosses it and has to wait for the peer
+                    await self.ws.send_bytes(b"n" * (65536 - (8 if self.side == "client" else 4) - 2))
                 else:
                     await self.ws.ping()
             except asyncio.CancelledError:
@@ -397,7 +401,7 @@ class World:
                 self._recv_loop(True)
         elif kind == "close":
             self._close(ev[1])
-        elif kind in ("send", "ping", "send_big"):
+        elif kind in ("send", "ping", "send_big", "send_near"):
             self._other(kind)
         elif kind == "peer":
             if self.peer.transport is None or self.peer.transport.closing:
@@ -629,7 +633,7 @@ def menu(cfg: dict) -> list[list]:
     if cfg.get("heartbeat") is not None:
         m = [["recv"], ["close", 1000], ["peer", "text"], ["peer", "ping"], ["peer", "close:1000"], ["eof"], ["jump"], ["tick", cfg["heartbeat"] / 2], ["tick", 0.6 * T]]
     if cfg.get("write_stall"):
-        m = [["recv"], ["close", 1000], ["send_huge"], ["peer_pause"], ["peer_resume"], ["peer", "close:1000"], ["eof"], ["cancel", "close"], ["tick", 0.6 * T]]
+        m = [["recv"], ["close", 1000], ["send_huge"], ["send"], ["send_near"], ["peer_pause"], ["peer_resume"], ["peer", "close:1000"], ["eof"], ["cancel", "close"], ["tick", 0.6 * T]]
     return m
 
 
